@@ -59,6 +59,7 @@ namespace occa {
       lex::skipWhitespace(c);
     }
 
+    const char *cDigits = c;
     if (*c == '0') {
       ++digits;
       ++c;
@@ -100,6 +101,7 @@ namespace occa {
       return p;
     }
 
+    const char *cSuffix = c;
     while(*c != '\0') {
       const char C = uppercase(*c);
       if (C == 'L') {
@@ -126,43 +128,57 @@ namespace occa {
       }
     }
 
-    if (loadedFormattedValue) {
-      // Hex and binary only handle U, L, and LL
-      if (longs == 0) {
-        if (unsigned_) {
-          p = p.to<uint32_t>();
-        } else {
-          p = p.to<int32_t>();
-        }
-      } else if (longs >= 1) {
-        if (unsigned_) {
-          p = p.to<uint64_t>();
-        } else {
-          p = p.to<int64_t>();
-        }
+    if (!loadedFormattedValue && (decimal || float_)) {
+      if (float_) {
+        p = (float) occa::parseFloat(std::string(c0, c - c0));
+      } else {
+        p = (double) occa::parseDouble(std::string(c0, c - c0));
       }
     } else {
-      // Handle the multiple other formats with normal digits
-      if (decimal || float_) {
-        if (float_) {
-          p = (float) occa::parseFloat(std::string(c0, c - c0));
-        } else {
-          p = (double) occa::parseDouble(std::string(c0, c - c0));
+      // Integer literal: its type is the first one that can hold its value,
+      // out of int, long for a decimal literal and out of int, unsigned int,
+      // long, unsigned long for an octal, hex or binary literal. The suffixes
+      // only remove candidates: u the signed types, l and ll the 32-bit ones
+      uint64_t value_;
+      if (loadedFormattedValue) {
+        value_ = p.to<uint64_t>();
+        if (negative) {
+          value_ = -value_;
         }
       } else {
-        uint64_t value_ = parseInt(std::string(c0, c - c0));
-        if (longs == 0) {
-          if (unsigned_) {
-            p = (uint32_t) value_;
-          } else {
-            p = (int32_t) value_;
-          }
-        } else if (longs >= 1) {
-          if (unsigned_) {
-            p = (uint64_t) value_;
-          } else {
-            p = (int64_t) value_;
-          }
+        // parseInt narrows to the type named by the suffix, ask for the widest
+        value_ = parseInt(std::string(cDigits, cSuffix - cDigits) + "ull");
+      }
+      const bool isDecimal = !loadedFormattedValue && (*cDigits != '0');
+
+      bool is64Bit = (longs > 0) || (value_ > 0xFFFFFFFFULL);
+      if (!unsigned_ && !is64Bit && (value_ > 0x7FFFFFFFULL)) {
+        // Too large for int
+        if (isDecimal) {
+          is64Bit = true;
+        } else {
+          unsigned_ = true;
+        }
+      }
+      if (!unsigned_ && (value_ > 0x7FFFFFFFFFFFFFFFULL)) {
+        // Too large for long
+        unsigned_ = true;
+      }
+
+      if (negative) {
+        value_ = -value_;
+      }
+      if (is64Bit) {
+        if (unsigned_) {
+          p = (uint64_t) value_;
+        } else {
+          p = (int64_t) value_;
+        }
+      } else {
+        if (unsigned_) {
+          p = (uint32_t) value_;
+        } else {
+          p = (int32_t) value_;
         }
       }
     }
